@@ -30,6 +30,10 @@ pub struct Case {
     pub recipe: Vec<Step>,
     pub subset: u16,
     pub script: Script,
+    /// number of plain successful actions (3 overwriting inserts each) run on session 0 before `ops`:
+    /// makes the session long-lived (hundreds to thousands of writes, few live keys)
+    #[serde(default)]
+    pub warmup: u16,
     pub ops: Vec<SOp>,
 }
 
@@ -50,7 +54,14 @@ fn case() -> impl Strategy<Value = Case> {
         script_strategy(),
         prop::collection::vec(sop(), 1..25),
     )
-        .prop_map(|(recipe, subset, script, ops)| Case { recipe, subset, script, ops })
+        .prop_map(|(recipe, subset, script, ops)| Case { recipe, subset, script, warmup: 0, ops })
+}
+
+fn long_case() -> impl Strategy<Value = Case> {
+    (case(), prop_oneof![1 => 100u16..340, 2 => 340u16..700]).prop_map(|(mut c, w)| {
+        c.warmup = w;
+        c
+    })
 }
 
 #[derive(Default)]
@@ -146,6 +157,49 @@ fn check(c: &Case, info: &mut CaseInfo) -> CheckResult {
     let mut next_id = 1u64;
     let (mut failed_after_write, mut deleted_committed, mut rejected_receive) = (0, 0, 0);
 
+    // warm-up: a long-lived session
+    for k in 0..c.warmup {
+        let payload = Payload {
+            guard: Guard::None,
+            ops: (0..3u8).map(|j| FOp::Insert(key_from(((k as u8).wrapping_mul(3).wrapping_add(j)) % 12), vec![(k % 251) as u8, j])).collect(),
+            poison: false,
+        };
+        let mut id: Id = [0xCC; 32];
+        id[2..10].copy_from_slice(&next_id.to_be_bytes());
+        next_id += 1;
+        let mut sink = RecSink::default();
+        let mut msgs = MsgSink::default();
+        sessions[0]
+            .action(
+                &rep.client,
+                &mut sink,
+                &mut msgs,
+                ActionScript {
+                    init: false,
+                    dump: false,
+                    publishes: vec![Publish {
+                        id,
+                        kind: Kind::Basic(0),
+                        payload: payload.clone(),
+                    }],
+                },
+            )
+            .map_err(|e| Failure::new("C14: a plain session action failed", e.to_string()))?;
+        let v = eval_rule(&id, &payload, &mut views[0]);
+        ensure!(v == Verdict::Accepted, "HARNESS: warm-up command rejected by the model", "");
+    }
+    if c.warmup > 0 {
+        info.label(if c.warmup >= 340 { "long_session>=1020_writes" } else { "long_session" });
+        let got = dump(&mut rep, &mut sessions[0])?;
+        ensure!(
+            got == views[0],
+            "C14: a session's fact view differs from committed facts overlaid with its own writes",
+            "after {} warm-up actions:\n got  {}\n want {}",
+            c.warmup,
+            fmt_facts(&got),
+            fmt_facts(&views[0])
+        );
+    }
     for (oi, op) in c.ops.iter().enumerate() {
         let what = format!("op#{oi}");
         match op {
@@ -345,6 +399,14 @@ pub fn run(ctx: &Ctx) -> ! {
          delete of a committed fact",
         case,
         ctx.pick(3000, 120_000),
+        check,
+    );
+    rep.explore(
+        "long_lived_session",
+        "the same after 100-700 plain actions (3 overwriting inserts each over 12 keys) on one session, i.e. a session whose write \
+         log holds hundreds to thousands of entries of which few are live, followed by 1-25 generated ops incl. failing ones",
+        long_case,
+        ctx.pick(400, 12_000),
         check,
     );
     rep.finish()
